@@ -8,7 +8,7 @@ the trace says, also inside wait(); a job can be advanced frame send by frame se
 threads interleave as the trace says), a per-host fake shm client with the conflict rule of cascade.shm, and a fake
 clock.  One trace step = one iteration of the real recv_loop, one pool job (or one step of it), one network event, one
 controller command, or a clock tick.  The harness touches the data server only through what it is given from outside
-(listener socket, sockets it opens, shm client, clock, pool, wait) plus `recv_loop`, `terminating`, `dlistener`.
+(listener socket, sockets it opens, shm client, clock, pool, wait) plus `recv_loop` and `terminating`.
 
 * oracle: a direct reading of the property on what the hosts' shm stores contain, what is called back to the message
   socket, what the controller's listener returns, and when shm purge is called (independent of the model);
@@ -91,6 +91,7 @@ class Runner:
         self.ctl_crash_seen = False
         self.skipped = 0
         self.outside = None
+        self.skip_corr = False
         self.cm = None
 
     def __enter__(self):
@@ -183,11 +184,18 @@ class Runner:
     def job_done_terms(self, h, k, finished):
         """pool jobs are atomic in the model: a job appears in the model's trace when it finishes"""
         cl = self.cluster
-        for (ah, ak) in cl.finished_aside:
+        for (ah, ak) in cl.finished_aside:   # jobs that had to finish first because this one waited for them (they exclude one another)
             self.terms.append(f"OA (AHost {cN(ah)} (HRunJob {cnat(ak)}))")
+            self.skip_corr = True            # the order of their effects is the threads' business: the oracle judges, the model is not asked
+            self.stats.add("job-waited-for-another-job")
         cl.finished_aside.clear()
         if finished:
             self.terms.append(f"OA (AHost {cN(h)} (HRunJob {cnat(k)}))")
+
+    @staticmethod
+    def seam(ok, what):
+        if not ok:
+            raise RuntimeError("the harness does not drive the implementation: " + what)
 
     # --- one operation
     def do(self, op):
@@ -207,9 +215,11 @@ class Runner:
             held = self.ds2key[op["ds"]] in cl.shm[op["src"]].data
             self.cmds.append({**op, "held": held, "at": len(self.ops_done)})
             cl.command(c)
+            self.seam(len(cl.net) == nbefore + 1 and cl.net[-1][0] == cl.daddr(op["src"]), "the controller's command did not appear on the fake wire")
             self.terms.append(f"OA (ACommand {self.c_cmd(c)} {cN(sidx)})")
         elif k == "purge":
             cl.purge(op["h"], self.dsl[op["ds"]])
+            self.seam(len(cl.net) == nbefore + 1 and cl.net[-1][0] == cl.daddr(op["h"]), "the executor's purge message did not appear on the fake wire")
             self.terms.append(f"OA (APurge {cN(op['h'])} {cN(op['ds'])})")
         elif k in ("deliver", "drop", "dup"):
             af = cl.net[op["i"]]
@@ -238,6 +248,10 @@ class Runner:
             else:
                 npend = len(cl.pool[op["h"]].pending())
                 cl.iterate(op["h"], op.get("picks", []))
+                if cl.finished_aside:   # a job the loop waited for could not get on before another one finished (they exclude one another):
+                    cl.finished_aside.clear()   # a schedule the model's wait() does not produce; the oracle still judges the trace
+                    self.skip_corr = True
+                    self.stats.add("wait-ran-jobs-in-another-order")
                 if cl.used_picks:
                     self.stats.add("loop-blocked-in-wait")
                 self.terms.append(f"OIter {cN(op['h'])} {clist([cnat(p) for p in op.get('picks', [])])}")
@@ -470,6 +484,8 @@ def safe_term(r):
         r.outside = str(e)
     if r.outside:
         r.stats.add("trace-outside-model")
+        return None
+    if r.skip_corr:
         return None
     return t
 
@@ -837,7 +853,7 @@ def run(ctx, res):
         if len(res.samples) < 3 and stream == "random" and nontrivial(r):
             res.samples.append({"nhosts": case["nhosts"], "datasets": case["datasets"], "ops": case["ops"][:25], "stats": sorted(r.stats)})
         if term is None:
-            if not r.fails:
+            if not r.fails and not r.skip_corr:
                 res.disagree("the trace contains a message the Coq model has no term for (" + str(r.outside) + ") although no oracle fired", case)
             return
         terms.append(term)
@@ -849,6 +865,8 @@ def run(ctx, res):
         rng = ctx.sub_rng(stream)
         for _ in range(ctx.n(nq, nt)):
             one(guarded(lambda: gen_case(rng, mode=stream), res, stream), stream)
+    if res.evaluations >= 50 and not res.failures and not (res.histogram.get("has:transfer-completed") and res.histogram.get("has:fetch-completed")):
+        res.disagree("no transfer / no fetch completed in any of the traces: the harness does not drive the implementation any more", {})
     results, logs = coq_results("C07", HEADER, terms, "check_case_w", tag="trace", shard=60, timeout=900)
     res.corr_checked += len(results)
     for ok, case in zip(results, metas):
